@@ -34,6 +34,7 @@ import ZoektModel.C01.DocIterLemmas
 import ZoektModel.C01.SubstrLemmas
 import ZoektModel.C01.LineLemmas
 import ZoektModel.C01.BTreeLemmas
+import ZoektModel.C01.FullLemmas
 namespace ZoektModel.C01
 
 /-- **one `evalMatchTree` call** on a consistent tree: the tree stays consistent, its plain value is unchanged, a decided
@@ -400,6 +401,114 @@ example : (btBuild 4 2 exNgs).1.innerKeys ≠ [] ∧ SortedC exNgs := by
   simp [exNgs, SortedC]
 example : btGet 4 exNgs (btBuild 4 2 exNgs).1 (btBuild 4 2 exNgs).2 17 = some 6 ∧
     btGet 4 exNgs (btBuild 4 2 exNgs).1 (btBuild 4 2 exNgs).2 18 = Option.none := by decide
+
+/-- **`C01_search_exact_all`**: the composition for EVERY modelled match-tree shape — in addition to the fragment of
+    `C01_search_exact_substring`, the nodes a regexp atom produces: `noVisit` pre-filters and same-line `andLine` nodes
+    over substring leaves. `Search` returns exactly, in order, the live documents on which the tree is true, where a
+    substring leaf means "the pattern occurs" (scan), an engine-decided atom means its verdict, an `andLine` node means
+    "every child occurs, and (if all are content leaves) some line holds an occurrence of every child"
+    (`lineSemC`, a scan; cf. `andLine_same_line`), and a `noVisit` node means its child; no `did not decide` panic;
+    a tree pruned to `nil` is false everywhere. -/
+theorem C01_search_exact_all (ctx : Ctx) (hw : ctx.WF) (t0 : MT) (h0 : t0.OkF ctx 0) :
+    match search ctx t0 with
+    | Option.none => ∀ d, semF ctx d t0 = false
+    | some o =>
+      o.res = (List.range ctx.live.length).filter (fun d => ctx.live.getD d false && semF ctx d t0) ∧
+      o.panicked = false := by
+  have hp := MT.prune_F ctx 0 t0 h0
+  unfold search
+  cases hpr : t0.prune with
+  | none => rw [hpr] at hp; exact hp
+  | some t =>
+    rw [hpr] at hp
+    simp only []
+    have := search_loop_exact ctx (fun d => semF ctx d t) _ (loopHyp_full ctx hw t) t ⟨hp.1, fun _ => rfl⟩
+    refine ⟨?_, this.2⟩
+    rw [this.1]
+    congr 1
+    funext d
+    rw [show semF ctx d t = semF ctx d t0 from hp.2.1 d]
+
+/-- **C01 for regexp-derived trees, given sound literal extraction**: if on every live document the tree's engine-side
+    meaning (regexp verdict ∧ pre-filter) equals the scan meaning `MT.ref` (which ignores pre-filters) — i.e. the
+    trigram pre-filter that `regexpToMatchTreeRecursive` extracted is implied by the regexp (validated case by case by
+    the check, not proved: it needs the regexp semantics) — then `Search` returns exactly `expected` (Spec.lean) -/
+theorem C01_search_exact_given_extraction (ctx : Ctx) (hw : ctx.WF) (t0 : MT) (h0 : t0.OkF ctx 0)
+    (hex : ∀ d, d < ctx.live.length → ctx.live.getD d false = true → semF ctx d t0 = t0.ref ctx d) :
+    match search ctx t0 with
+    | Option.none => ∀ d, d < ctx.live.length → ctx.live.getD d false = true → t0.ref ctx d = false
+    | some o => o.res = expected ctx t0 ∧ o.panicked = false := by
+  have h := C01_search_exact_all ctx hw t0 h0
+  cases hs : search ctx t0 with
+  | none => rw [hs] at h; intro d hd hl; rw [← hex d hd hl]; exact h d
+  | some o =>
+    rw [hs] at h
+    refine ⟨?_, h.2⟩
+    rw [h.1]
+    unfold expected
+    apply List.filter_congr
+    intro d hd
+    have hd' : d < ctx.live.length := by simpa using hd
+    cases hl : ctx.live.getD d false with
+    | false => simp [hl]
+    | true => simp only [hl, Bool.true_and]; exact hex d hd' hl
+
+theorem matchAt_bound (cs : Bool) (pat text : List Nat) (x : Nat) (hp : 0 < pat.length)
+    (h : matchAt cs pat text x = true) : x + pat.length ≤ text.length := by
+  unfold matchAt at h
+  cases cs with
+  | true =>
+    simp only [if_true] at h
+    have := (List.isPrefixOf_iff_prefix.mp h).length_le
+    rw [List.length_drop] at this; omega
+  | false =>
+    simp only [Bool.false_eq_true, if_false] at h
+    have := (List.isPrefixOf_iff_prefix.mp h).length_le
+    rw [List.length_map, List.length_drop] at this; omega
+
+/-- the same-line conjunct's scan meaning, spelled out: for content substring children it holds iff some line of the
+    document contains an occurrence of every child's pattern -/
+theorem lineSem_meaning (ctx : Ctx) (d : Nat) (pats : List (Bool × List Nat)) (hne : pats ≠ [])
+    (hpos : ∀ p, p ∈ pats → 0 < p.2.length) :
+    sameLineOf ctx d (some (pats.map fun p => occList ctx p.1 p.2 d)) = St.found ↔
+    ∃ line, ∀ p, p ∈ pats → ∃ o, o ∈ occList ctx p.1 p.2 d ∧ atOffset (newlineOffsets (ctx.text false d)) o = line := by
+  have key := andLine_same_line ctx d (pats.map fun p => occList ctx p.1 p.2 d) (by simpa using hne)
+    (fun c hc => by
+      simp only [List.mem_map] at hc
+      obtain ⟨p, _, e⟩ := hc; subst e
+      exact List.Pairwise.filter _ List.pairwise_lt_range)
+    (fun c hc x hx => by
+      simp only [List.mem_map] at hc
+      obtain ⟨p, hp, e⟩ := hc; subst e
+      simp only [occList, List.mem_filter, List.mem_range] at hx
+      have h1 := matchAt_bound p.1 p.2 (ctx.text false d) x (hpos p hp) hx.2
+      have h2 := hpos p hp
+      omega)
+  rw [key]
+  constructor
+  · intro ⟨line, h⟩
+    exact ⟨line, fun p hp => h _ (List.mem_map.mpr ⟨p, hp, rfl⟩)⟩
+  · intro ⟨line, h⟩
+    refine ⟨line, fun c hc => ?_⟩
+    simp only [List.mem_map] at hc
+    obtain ⟨p, hp, e⟩ := hc; subst e
+    exact h p hp
+
+/-! non-vacuity: the tree of the regexp `abc.*cd` on contents "abc cd", "abc\ncd", "cd abc" (all three satisfy the
+    engine's verdict table here, to show the pre-filter at work): and[re, noVisit(andLine[substr abc, substr cd])] -/
+def exCtxA : Ctx := ⟨[[110], [111], [112]], [[97, 98, 99, 32, 99, 100, 101], [97, 98, 99, 10, 99, 100, 101], [99, 100, 101, 32, 97, 98, 99]],
+  [true, true, true]⟩
+def exTreeA : MT :=
+  .and Option.none (.cons (.re false false [true, false, false] false 0 false false)
+    (.cons (.noVisit (.andLine Option.none Option.none
+      (.cons (.sub (mkSub exCtxA false [97, 98, 99] 0 0)) (.cons (.sub (mkSub exCtxA false [99, 100, 101] 0 0)) .nil)))) .nil))
+example : exCtxA.WF := ⟨rfl, rfl⟩
+example : exTreeA.OkF exCtxA 0 :=
+  ⟨fun h => by simp at h, ⟨⟨mkSub_ok exCtxA false _ 0 0 (by decide) (by decide) (by decide),
+    mkSub_ok exCtxA false _ 0 0 (by decide) (by decide) (by decide), trivial⟩, trivial⟩, trivial⟩
+example : (List.range 3).map (fun d => lineSemC exCtxA (.cons (.sub (mkSub exCtxA false [97, 98, 99] 0 0))
+    (.cons (.sub (mkSub exCtxA false [99, 100, 101] 0 0)) .nil)) d) = [true, false, true] := by decide
+example : (List.range 3).filter (fun d => exCtxA.live.getD d false && semF exCtxA d exTreeA) = [0] := by decide
 
 /-! non-vacuity: a shard of 5 documents (document 3 dead), tree `and[doc-predicate, not(regexp verdicts), or[branch, none]]` -/
 def exCtx : Ctx := ⟨[[97], [98], [99], [100], [101]], [[], [], [], [], []], [true, true, true, false, true]⟩
